@@ -406,6 +406,6 @@ def cases(tier):
         cs += [H1("iii", 3), H1("iii", 2), H1("abc", 3, dt="sym"), H1("aab", 2, dt="sym"), H1("abb", 2), H1("iai", 2), H1("ab", 3, "float_antichrono", dt="sym"),
                H1("ia", 3, "mixed_same_step", dt="sym", side="pre"), H1("ai", 3, "mixed_same_step", dt="sym", side="post")]
         cs += [H2(0, 3, "ii"), H2(1, 3, "ii"), H2(2, 2, "i", bond=1), H2(1, 3, "ff", start=0.3, bond=1), H2(1, 3, "iii", stack=True, bond=1), H2(1, 2, "iii", bond=1)]
-        cs += [H3a(3, 1, "claim"), H3a(3, 2, "stack_order"), H3b(2, 2, "claim", bonds=(1, 1)), H3b(1, 3, "claim", bonds=(2, 2)),
+        cs += [H3a(3, 1, "claim"), H3a(3, 2, "stack_order"), H3b(2, 2, "claim", bonds=(1, 1)), H3b(1, 3, "claim", bonds=(1, 1), pair=False), H3b(1, 2, "claim", bonds=(2, 2)),
                H3b(3, 1, "stack_order", bonds=(1, 1), pair=False), H3b(2, 2, "stack_order", bonds=(2, 1))]
     return cs
